@@ -1022,7 +1022,9 @@ orc_compiler_get_temp_reg (OrcCompiler *compiler)
   }
 
   ORC_DEBUG("at insn %d %s", compiler->insn_index,
-      compiler->insns[compiler->insn_index].opcode->name);
+      (compiler->insn_index < compiler->n_insns &&
+       compiler->insns[compiler->insn_index].opcode) ?
+      compiler->insns[compiler->insn_index].opcode->name : "(none)");
 
   // Use ORC_N_REGS to ensure forward proofed iteration
   for (j = compiler->min_temp_reg; j < ORC_N_REGS; j++) {
